@@ -857,7 +857,31 @@ func (g *gen) script() []string {
 	f2 := g.faces[g.r.Intn(len(g.faces))]
 	n := g.pick(g.hot)
 	a, b, c := g.twoNonces()
-	switch g.r.Intn(3) {
+	switch g.r.Intn(4) {
+	case 3:
+		// /localhost Data cached from an exchange between local applications; then a NON-local consumer asks with CanBePrefix for
+		// a (possibly empty) prefix of it: the empty name, and names that are not under /localhost
+		var loc, non []uint64
+		for _, f := range g.faces {
+			if g.local[f] {
+				loc = append(loc, f)
+			} else {
+				non = append(non, f)
+			}
+		}
+		if len(loc) == 0 || len(non) == 0 {
+			return nil
+		}
+		lh := g.pick([]string{"/8.0/8.4/8.1", "/8.0/8.1", "/8.0/8.1/8.2", "/8.0/8.4", "/8.0/8.4/8.1/8.2"})
+		app, prod, remote := loc[g.r.Intn(len(loc))], loc[g.r.Intn(len(loc))], non[g.r.Intn(len(non))]
+		ops := []string{"cs 1 1"}
+		if g.r.Intn(2) == 0 {
+			ops = append(ops, fmt.Sprintf("int %d %s 0 0 %s - - - - -", app, lh, a))
+		}
+		ops = append(ops, fmt.Sprintf("data %d %s 100000 -", prod, lh))
+		ops = append(ops, fmt.Sprintf("int %d / 1 %s %s - - - %s -", remote, b01(g.r.Intn(3) == 0), b, g.pick([]string{"-", "01070707"})))
+		ops = append(ops, fmt.Sprintf("int %d / 1 0 %s - - - - -", non[g.r.Intn(len(non))], c))
+		return ops
 	case 0:
 		// a long-lived pending Interest on a name, a short-lived one on a child name that expires and is reaped, then Data
 		// without PIT token for the parent
